@@ -137,6 +137,14 @@ func c15Variants(src string) (base string, vs []c15Variant) {
 			vs = append(vs, c15Variant{gen.JoinWith(two, " "), "case:one-keyword-mixed", "kw:" + strings.ToLower(t.Text)})
 		}
 	}
+	// `function` is an alias of `transform`
+	for i, t := range ts {
+		if t.Kind == "word" && strings.ToLower(t.Text) == "transform" {
+			al := append([]gen.Tok{}, ts...)
+			al[i].Text = []string{"function", "FUNCTION", "Function"}[i%3]
+			vs = append(vs, c15Variant{gen.JoinWith(al, " "), "alias:function-for-transform", "kw:transform"})
+		}
+	}
 	if nkw > 0 {
 		vs = append(vs, c15Variant{gen.JoinWith(up, " "), "case:all-upper", "all"})
 		vs = append(vs, c15Variant{gen.JoinWith(mx, " "), "case:all-mixed", "all"})
@@ -153,7 +161,7 @@ func C15(r *drv.Run) {
 	if !quick(r) {
 		ngen = 4000
 	}
-	r.Rule = "valid programs as token lists (hand corpus covering every production incl. process statements/expressions, amount clauses, named loops, ranges, caseless, regex literals; repository examples; generated programs) x EVERY gap between adjacent tokens x {newline, tab run, CRLF, line comment, block comment glued, block comment with blanks, multi-line block comment, two line comments, two glued block comments, block then line comment, three comments mixed with blanks, vertical tab, form feed, block comments whose text mentions `--(` or consists of dashes and parentheses, the empty block comment, a line comment mentioning block syntax} and - where the neighbours are not both words - removal of the whitespace; every keyword individually and all together in UPPER and MiXeD case; leading/trailing layout; the same text, and its CR LF form, read from a file through CompileFile; eight White_Space code points beyond ASCII (U+0085, U+00A0, U+1680, U+2000, U+2003, U+2028, U+205F, U+3000) in one gap per program, judged as a group: all of them separate tokens or none does. Oracle (metamorphic): variant accepted iff the single-blank original is, reflect.DeepEqual + canonical-dump equality of the syntax trees (hook H6), identical Run results on 3 texts (a text on which the original alone needs more than 4 000 VM steps is dropped for its variants, which run under a budget of 30 000). Non-trivial = every distinct variant whose three verdicts agreed; distinct by variant source."
+	r.Rule = "valid programs as token lists (hand corpus covering every production incl. process statements/expressions, amount clauses, named loops, ranges, caseless, regex literals; repository examples; generated programs) x EVERY gap between adjacent tokens x {newline, tab run, CRLF, line comment, block comment glued, block comment with blanks, multi-line block comment, two line comments, two glued block comments, block then line comment, three comments mixed with blanks, vertical tab, form feed, block comments whose text mentions `--(` or consists of dashes and parentheses, the empty block comment, a line comment mentioning block syntax} and - where the neighbours are not both words - removal of the whitespace; every keyword individually and all together in UPPER and MiXeD case; `function` written for its alias `transform`; leading/trailing layout; the same text, and its CR LF form, read from a file through CompileFile; a 5 MiB gap (blank lines, one block comment, line comments) between the commands of two programs, through CompileFile and through Compile; eight White_Space code points beyond ASCII (U+0085, U+00A0, U+1680, U+2000, U+2003, U+2028, U+205F, U+3000) in one gap per program, judged as a group: all of them separate tokens or none does. Oracle (metamorphic): variant accepted iff the single-blank original is, reflect.DeepEqual + canonical-dump equality of the syntax trees (hook H6), identical Run results on 3 texts (a text on which the original alone needs more than 4 000 VM steps is dropped for its variants, which run under a budget of 30 000). Non-trivial = every distinct variant whose three verdicts agreed; distinct by variant source."
 	r.Assumptions = []string{
 		"a block comment glued directly after '-' is not a layout change (it lexes as a different token sequence) and is not generated",
 		"the harness tokenizer's token boundaries are those of the documented lexing rules; it is only applied to programs known to be valid",
@@ -314,6 +322,54 @@ func C15(r *drv.Run) {
 			}
 		}}
 	})
+	// layout by the megabyte: a gap of 5 MiB of blank lines / of one block comment / of line comments between the
+	// commands of a program, read through CompileFile and through Compile (whatever bounds a reader or a lexer
+	// puts on its input, ignorable text must not count against the program)
+	{
+		var big [][]byte
+		for _, b := range bases {
+			ts := gen.Significant(gen.Tokenize(b))
+			if strings.Count(b, "\n") >= 1 && len(ts) > 6 && len(ts) < 60 && !strings.Contains(b, "{") {
+				big = append(big, []byte(b))
+			}
+			if len(big) == 2 {
+				break
+			}
+		}
+		fills := []string{strings.Repeat("\n", 5<<20), " --(" + strings.Repeat("c", 5<<20) + ")-- ", strings.Repeat("-- a line comment of some length, as banners are\n", (5<<20)/49)}
+		r.Exec(len(big)*len(fills), drv.ExecOpts{Batch: 1}, func(i int) *drv.Item {
+			b := big[i/len(fills)]
+			ts := gen.Significant(gen.Tokenize(string(b)))
+			base := gen.JoinWith(ts, " ")
+			g := len(ts) / 2
+			v := joinWithGap(ts, g, fills[i%len(fills)])
+			c := wire.Case{Op: "astcmp", Srcs: [][]byte{[]byte(base), []byte(v), []byte(v)}, Texts: allTexts[:1], StepBudget: 30000, ViaFile: []int{1}}
+			return &drv.Item{Case: c, Check: func(res *wire.Result) {
+				if crashOrGuard(r, res, &c, base, false) {
+					return
+				}
+				if len(res.Compiles) != 3 || !res.Compiles[0].OK {
+					r.Inconclusive("megabyte layout: base program not compiled")
+					return
+				}
+				for k, how := range []string{"through-CompileFile", "through-Compile"} {
+					r.Eval(1)
+					cr := &res.Compiles[k+1]
+					switch {
+					case cr.Panic != nil:
+						r.Violate(&drv.Violation{Sig: "compile-panic:" + cr.Panic.Frame, Panic: cr.Panic.Msg, Frame: cr.Panic.Frame, Src: base, Detail: map[string]any{"layout": "5 MiB gap " + how}})
+					case !cr.OK:
+						r.Violate(&drv.Violation{Sig: "accept-reject-differs:megabyte-gap-" + how, Src: base, Err: cr.Err, Detail: map[string]any{"original": base, "gap_after_token": g, "filler": i % len(fills), "error": oneLineN(cr.Err, 160)}})
+					case !res.ASTEqual[k+1]:
+						r.Violate(&drv.Violation{Sig: "syntax-tree-differs:megabyte-gap-" + how, Src: base, Detail: map[string]any{"original": base, "gap_after_token": g, "filler": i % len(fills)}})
+					default:
+						r.Count("ok_megabyte-gap-"+how, 1)
+						r.Nontrivial(fmt.Sprintf("megabyte|%d|%s", i, how))
+					}
+				}
+			}}
+		})
+	}
 	if uspaceWS != nil && uspaceNot != nil {
 		r.Violate(&drv.Violation{Sig: "unicode-white-space-treated-inconsistently", Src: uspaceNot.src, Case: &uspaceCase,
 			Detail: map[string]any{"separates_tokens": uspaceWS.kind[7:], "example_accepted": oneLineN(uspaceWS.src, 200), "does_not_separate": uspaceNot.kind[7:], "original": uspaceNot.gap}})
@@ -323,6 +379,9 @@ func C15(r *drv.Run) {
 			if r.Counter("ok_gap:"+f.name) == 0 {
 				r.Inconclusive("coverage floor: filler never verified: " + f.name)
 			}
+		}
+		if r.Counter("ok_megabyte-gap-through-CompileFile") == 0 {
+			r.Inconclusive("coverage floor: no megabyte layout verified through CompileFile")
 		}
 		if r.Counter("ok_case:all-upper") == 0 || r.Counter("ok_gap:no-whitespace") == 0 {
 			r.Inconclusive("coverage floor: case / whitespace-removal variants missing")
